@@ -688,6 +688,15 @@ class Frame:
         if t.startswith('"') or t.startswith('b"'):
             return Obj('str', text=t)
         if t.startswith("'"):
+            body = t[1:-1]
+            esc = {'\\n': '\n', '\\t': '\t', '\\r': '\r', '\\0': '\0', "\\'": "'", '\\"': '"', '\\\\': '\\'}
+            mu = re.fullmatch(r'\\u\{([0-9a-fA-F]+)\}', body)
+            if len(body) == 1:
+                return z3.BitVecVal(ord(body), 32)
+            if body in esc:
+                return z3.BitVecVal(ord(esc[body]), 32)
+            if mu:
+                return z3.BitVecVal(int(mu.group(1), 16), 32)
             return Obj('char', text=t)
         if t.startswith('ZeroSized: '):
             ty = t[len('ZeroSized: '):]
@@ -716,6 +725,19 @@ class Frame:
                 return z3.Not(a) if z3.is_bool(a) else ~a
             if rv[1] == 'Neg':
                 return -a
+            if rv[1] == 'PtrMetadata':
+                # the length a slice / str reference carries
+                v = ex.materialize(a)
+                for _ in range(4):
+                    if isinstance(v, Ref):
+                        v = ex.materialize(ex.read_path(v.cell, v.path))
+                if isinstance(v, Obj) and v.kind == 'vec':
+                    return z3.BitVecVal(len(v.items), 64)
+                if isinstance(v, Obj) and v.kind == 'str':
+                    t = v.text[1:] if v.text.startswith('b"') else v.text
+                    if t.startswith('"') and t.endswith('"') and '\\' not in t:
+                        return z3.BitVecVal(len(t[1:-1].encode('utf-8')), 64)
+                raise Inconclusive('PtrMetadata of %r' % (v,))
             raise Inconclusive('unop %s' % rv[1])
         if k == 'discr':
             cell, path, ty = self.lvalue(rv[1])
